@@ -150,6 +150,9 @@ func Values(t reflect.Type, depth int) []reflect.Value {
 	case reflect.Float64:
 		add(float64(-2.5))
 	case reflect.Interface:
+		if t.NumMethod() != 0 {
+			return out // only the nil value for non-empty interfaces
+		}
 		out = append(out, ifcValue(t, 3), ifcValue(t, "x"), ifcValue(t, ""), ifcValue(t, []interface{}{}), ifcValue(t, map[string]interface{}{"k": nil}),
 			ifcValue(t, []int{1}), ifcValue(t, reflect.New(Inner).Elem().Interface()))
 	case reflect.Ptr:
@@ -179,6 +182,9 @@ func Values(t reflect.Type, depth int) []reflect.Value {
 		out = append(out, a)
 	case reflect.Map:
 		out = append(out, reflect.MakeMap(t))
+		if t.Key().Kind() != reflect.String {
+			return out
+		}
 		ev := Values(t.Elem(), depth+1)
 		m := reflect.MakeMap(t)
 		m.SetMapIndex(reflect.ValueOf("k").Convert(t.Key()), ev[len(ev)-1])
